@@ -585,11 +585,15 @@ impl<Db: Database> InternalStorage<Db> {
 //@item rel=crates/pico/src/execute_memoized_function.rs kind=enum name=DidRecalculate prefix="pub"
 /// execute_memoized_function: NO contract (it re-executes functions and mutates the storage
 /// behind `&Db`); whatever it returns is possible here
+/// what re-verifying the node answers (uninterpreted: any answer is possible)
+pub uninterp spec fn reverify_result<Db: Database>(db: &Db, derived_node_id: DerivedNodeId) -> DidRecalculate;
 #[verifier::external_body]
-pub fn execute_memoized_function<Db: Database>(db: &Db, derived_node_id: DerivedNodeId, inner_fn: InnerFn<Db>) -> DidRecalculate { unimplemented!() }
+pub fn execute_memoized_function<Db: Database>(db: &Db, derived_node_id: DerivedNodeId, inner_fn: InnerFn<Db>) -> (r: DidRecalculate)
+    ensures r == reverify_result(db, derived_node_id)
+{ unimplemented!() }
 
 //@fn rel=crates/pico/src/execute_memoized_function.rs name=derived_node_changed_since vis=pub ret=r serves=C01,C02
-//@rw R2
+//@rw R2 R6
 //@contract
     requires db.storage_spec().internal.dwf(),
     ensures
@@ -603,6 +607,13 @@ pub fn execute_memoized_function<Db: Database>(db: &Db, derived_node_id: Derived
         db.storage_spec().internal.dhas(derived_node_id)
             && db.storage_spec().internal.drev(derived_node_id).time_updated.t() <= since.t()
             && db.storage_spec().internal.ddeps(derived_node_id).len() == 0 ==> !r, //@O C02.O-5_unchanged_interned_value_is_not_reexecuted
+        // C01: a dependency that has to be re-verified counts as changed EXACTLY when the
+        // re-verification recomputed it to a different value (or failed) - whatever its time
+        // stamps say (a value can change without any stamp moving, e.g. after a removal)
+        db.storage_spec().internal.dhas(derived_node_id)
+            && db.storage_spec().internal.drev(derived_node_id).time_updated.t() <= since.t()
+            && db.storage_spec().internal.ddeps(derived_node_id).len() > 0 ==>
+            r == (reverify_result(db, derived_node_id) is Recalculated || reverify_result(db, derived_node_id) is Error), //@O C01.O-5_reverified_dependency_counts_as_changed_iff_it_was_recomputed
 //@end
 
 /// a source dependency recorded at time t is stale: the source is gone or was stamped after t
